@@ -40,6 +40,7 @@ def main():
         if is_dir:
             shutil.copytree(demo_src, os.path.join(d, target))
         else:
+            os.makedirs(os.path.join(d, target), exist_ok=True)
             shutil.copy(demo_src, os.path.join(d, target, os.path.basename(demo)))
         run = "go test -vet=off -count=1 -run '%s' %s" % (regex, pkg)
         if regex == "RUN":
